@@ -146,7 +146,7 @@ func TestGovcReplay(t *testing.T) {
 `
 
 func c20Bounded(eng *Engine, tier string, seed int64) *BoundedResult {
-	out := runReplayTest(repoDir(), filepath.Join(repoDir(), "netutil", "httputil"), strings.ReplaceAll(c20TestSrc, "%%", "%"))
+	out := runHarness(repoDir(), filepath.Join(repoDir(), "netutil", "httputil"), strings.ReplaceAll(c20TestSrc, "%%", "%"))
 	res := &BoundedResult{
 		What:  "Wrap passes a request through m1..mn in that order before h (0..4 middlewares, the same argument slice used three times); through one LogMiddleware, request after request: the wrapped handler observes its own request (method, URL, host, header, body), a context logger whose records carry host, method, raddr and request_uri; the client receives the status and body the invocation wrote; the finished record reports that status (200 when none was set)",
 		Bound: "5 request shapes (4 methods, with and without body, explicit codes 201/404/500 and none) x 3 rounds through the same middleware (so pooled objects are reused); one goroutine",
